@@ -239,4 +239,238 @@ theorem wordcount_run (s : List Char) (hs : s ≠ []) (h : ∀ c ∈ s, isWhites
     rw [aux cs (fun x hx => h x (List.mem_cons_of_mem _ hx))]
 
 
+
+/-- What the documentation says `newlines_to_br` does, in one pass: `\r\n`, a lone `\n` and a lone
+`\r` each become `<br>`; every other character is kept. -/
+def brSpec : List Char → List Char
+  | [] => []
+  | '\r' :: '\n' :: rest => br ++ brSpec rest
+  | c :: rest => (if c = '\n' ∨ c = '\r' then br else [c]) ++ brSpec rest
+
+theorem newlinesToBr_eq_spec (s : List Char) : newlinesToBr s = brSpec s := by
+  have hf : (['\r', '\n'] : List Char) ≠ [] := by simp
+  obtain ⟨e1, e2, e3⟩ := replace_equations ['\r', '\n'] br hf
+  have hbr : br.flatMap (fun c => if c = '\n' ∨ c = '\r' then br else [c]) = br := by decide
+  unfold newlinesToBr
+  fun_induction brSpec s with
+  | case1 => rw [e1]; rfl
+  | case2 rest ih =>
+    have := e2 rest
+    simp only [List.cons_append, List.nil_append] at this
+    rw [this, List.flatMap_append, hbr, ih]
+  | case3 c rest hne ih =>
+    have hn : ¬ (['\r', '\n'] : List Char) <+: c :: rest := by
+      rintro ⟨t, ht⟩
+      simp only [List.cons_append, List.nil_append, List.cons.injEq] at ht
+      obtain ⟨h1, h2⟩ := ht
+      cases rest with
+      | nil => simp at h2
+      | cons d ds =>
+        simp only [List.cons.injEq] at h2
+        exact hne ds h1.symm (by rw [← h2.1])
+    rw [e3 c rest hn, List.flatMap_cons, ih]
+
+
+
+/-- indentation put in front of the line that starts the text `rest` (the text after a `\n`) -/
+def lineStartInd (ind : List Char) (blank : Bool) : List Char → List Char
+  | [] => []
+  | c :: _ => if c = '\n' then (if blank then ind else []) else ind
+
+/-- What the documentation says `indent` does, as one pass over the characters: after every line
+break that is followed by more text, insert the prefix unless the line it starts is empty (and
+`blank` is off); nothing else changes. -/
+def indentGo (ind : List Char) (blank : Bool) : List Char → List Char
+  | [] => []
+  | c :: rest =>
+    if c = '\n' then '\n' :: (lineStartInd ind blank rest ++ indentGo ind blank rest)
+    else c :: indentGo ind blank rest
+
+def indentSpec (ind : List Char) (first blank : Bool) (s : List Char) : List Char :=
+  (if first ∧ s ≠ [] then ind else []) ++ indentGo ind blank s
+
+theorem linesAux_noNl (l t cur : List Char) (h : '\n' ∉ l) :
+    linesAux (l ++ t) cur = linesAux t (l.reverse ++ cur) := by
+  induction l generalizing cur with
+  | nil => rfl
+  | cons c cs ih =>
+    have hc : c ≠ '\n' := fun e => h (e ▸ List.mem_cons_self ..)
+    simp only [List.cons_append, linesAux, hc, if_false]
+    rw [ih (c :: cur) (fun hm => h (List.mem_cons_of_mem _ hm))]
+    simp
+
+theorem lines_split (l rest : List Char) (h : '\n' ∉ l) (hr : '\r' ∉ l) :
+    lines (l ++ '\n' :: rest) = l :: lines rest := by
+  unfold lines
+  rw [linesAux_noNl l _ [] h]
+  simp only [List.append_nil, linesAux, if_true]
+  congr 1
+  cases hl : l.reverse with
+  | nil => simp_all
+  | cons c cs =>
+    have : c ≠ '\r' := by
+      intro e
+      apply hr
+      have : c ∈ l.reverse := by rw [hl]; exact List.mem_cons_self ..
+      rw [e] at this
+      simpa using this
+    split
+    · rename_i heq; simp only [List.cons.injEq] at heq; exact absurd heq.1.symm (by simpa using this.symm)
+    · rw [← hl]; simp
+
+theorem lines_noNl (l : List Char) (h : '\n' ∉ l) : lines l = if l = [] then [] else [l] := by
+  unfold lines
+  have := linesAux_noNl l [] [] h
+  simp only [List.append_nil] at this
+  rw [this]
+  simp only [linesAux]
+  by_cases hl : l = [] <;> simp [hl]
+
+theorem split_first_nl (s : List Char) :
+    '\n' ∉ s ∨ ∃ l rest, s = l ++ '\n' :: rest ∧ '\n' ∉ l := by
+  induction s with
+  | nil => left; simp
+  | cons c cs ih =>
+    by_cases hc : c = '\n'
+    · right; exact ⟨[], cs, by simp [hc], by simp⟩
+    · rcases ih with h | ⟨l, rest, h1, h2⟩
+      · left; simp [hc, h]; exact fun e => hc e.symm
+      · right
+        refine ⟨c :: l, rest, by simp [h1], ?_⟩
+        simp only [List.mem_cons, not_or]
+        exact ⟨fun e => hc e.symm, h2⟩
+
+theorem indentGo_noNl (ind : List Char) (blank : Bool) (l t : List Char) (h : '\n' ∉ l) :
+    indentGo ind blank (l ++ t) = l ++ indentGo ind blank t := by
+  induction l with
+  | nil => rfl
+  | cons c cs ih =>
+    have hc : c ≠ '\n' := fun e => h (e ▸ List.mem_cons_self ..)
+    simp only [List.cons_append, indentGo, hc, if_false]
+    rw [ih (fun hm => h (List.mem_cons_of_mem _ hm))]
+
+/-- body of `indent` without the first-line prefix -/
+def indentBody (ind : List Char) (blank : Bool) (s : List Char) : List Char :=
+  (match lines s with
+    | [] => []
+    | l :: rest => l ++ indentLines ind blank rest) ++ (if s.getLast? = some '\n' then ['\n'] else [])
+
+theorem indentBody_eq_go (ind : List Char) (blank : Bool) :
+    ∀ (n : Nat) (s : List Char), s.length ≤ n → '\r' ∉ s → indentBody ind blank s = indentGo ind blank s := by
+  intro n
+  induction n with
+  | zero =>
+    intro s hs _
+    have : s = [] := by cases s <;> simp_all
+    subst this
+    simp [indentBody, lines, linesAux, indentGo]
+  | succ n ih =>
+    intro s hs hcr
+    rcases split_first_nl s with h | ⟨l, rest, h1, h2⟩
+    · -- a single line
+      have hg := indentGo_noNl ind blank s [] h
+      simp only [List.append_nil] at hg
+      rw [hg]
+      simp only [indentBody, lines_noNl s h]
+      have hlast : s.getLast? ≠ some '\n' := by
+        intro e
+        exact h (List.mem_of_getLast? e)
+      by_cases hs0 : s = []
+      · simp [hs0, indentLines, indentGo]
+      · simp [hs0, hlast, indentLines, indentGo]
+    · subst h1
+      have hcl : '\r' ∉ l := fun hm => hcr (List.mem_append_left _ hm)
+      have hcrest : '\r' ∉ rest := fun hm => hcr (List.mem_append_right _ (List.mem_cons_of_mem _ hm))
+      have hlen : rest.length ≤ n := by simp at hs; omega
+      have ihr := ih rest hlen hcrest
+      rw [indentGo_noNl ind blank l _ h2]
+      simp only [indentGo, if_true]
+      simp only [indentBody, lines_split l rest h2 hcl]
+      cases rest with
+      | nil =>
+        simp [lines, linesAux, indentLines, lineStartInd, indentGo]
+      | cons c cs =>
+        have hlast : (l ++ '\n' :: c :: cs).getLast? = (c :: cs).getLast? := by
+          simp only [List.getLast?_append, List.getLast?_cons_cons]
+          cases hq : (c :: cs).getLast? with
+          | none => simp at hq
+          | some x => rfl
+        rw [hlast]
+        -- the lines of the rest start with its first line
+        simp only [indentBody] at ihr
+        cases hl : lines (c :: cs) with
+        | nil =>
+          -- impossible: a non-empty text has a line
+          exfalso
+          rcases split_first_nl (c :: cs) with h | ⟨l', r', e1, e2⟩
+          · rw [lines_noNl _ h] at hl; simp at hl
+          · rw [e1, lines_split l' r' e2 (fun hm => hcrest (by rw [e1]; exact List.mem_append_left _ hm))] at hl
+            cases hl
+        | cons l' ls =>
+          rw [hl] at ihr
+          simp only [indentLines]
+          -- the first line of the rest is empty iff the rest starts with a line break
+          have hfirst : (l' = [] ↔ c = '\n') := by
+            rcases split_first_nl (c :: cs) with h | ⟨l2, r2, e1, e2⟩
+            · rw [lines_noNl _ h] at hl
+              simp at hl
+              obtain ⟨hl1, _⟩ := hl
+              constructor
+              · intro e; rw [e] at hl1; cases hl1
+              · intro e; exact absurd (e ▸ List.mem_cons_self ..) h
+            · rw [e1, lines_split l2 r2 e2 (fun hm => hcrest (by rw [e1]; exact List.mem_append_left _ hm))] at hl
+              simp only [List.cons.injEq] at hl
+              obtain ⟨hl1, _⟩ := hl
+              subst hl1
+              constructor
+              · intro e; subst e; simp at e1; exact e1.1
+              · intro e
+                subst e
+                cases l2 with
+                | nil => rfl
+                | cons d ds =>
+                  simp only [List.cons_append, List.cons.injEq] at e1
+                  exact absurd (e1.1 ▸ List.mem_cons_self ..) e2
+          have hind : (if l' ≠ [] ∨ blank = true then ind else []) = lineStartInd ind blank (c :: cs) := by
+            simp only [lineStartInd]
+            by_cases hc : c = '\n'
+            · have := hfirst.2 hc
+              simp [hc, this]
+            · have : l' ≠ [] := fun e => hc (hfirst.1 e)
+              simp [hc, this]
+          rw [hind, ← ihr]
+          simp [List.append_assoc]
+
+theorem lines_eq_nil_iff (s : List Char) (hcr : '\r' ∉ s) : lines s = [] ↔ s = [] := by
+  constructor
+  · intro hl
+    rcases split_first_nl s with h | ⟨l', r', e1, e2⟩
+    · rw [lines_noNl _ h] at hl
+      by_cases hs : s = []
+      · exact hs
+      · simp [hs] at hl
+    · rw [e1, lines_split l' r' e2 (fun hm => hcr (by rw [e1]; exact List.mem_append_left _ hm))] at hl
+      cases hl
+  · intro hs; subst hs; rfl
+
+/-- `indent` (filters.rs, built on `str::lines`) equals the one-pass specification on every text
+without `\r` (with `\r\n` line ends `str::lines` drops the `\r`: observation, see the harness). -/
+theorem indent_eq_spec (width : Nat) (first blank : Bool) (s : List Char) (hcr : '\r' ∉ s) :
+    indent width first blank s = indentSpec (List.replicate (min width 1000) ' ') first blank s := by
+  have hb := indentBody_eq_go (List.replicate (min width 1000) ' ') blank s.length s (Nat.le_refl _) hcr
+  unfold indentSpec
+  rw [← hb]
+  unfold indent indentBody
+  simp only
+  have hnil := lines_eq_nil_iff s hcr
+  cases hl : lines s with
+  | nil =>
+    have : s = [] := hnil.1 hl
+    subst this
+    simp
+  | cons l rest =>
+    have hs : s ≠ [] := fun e => by rw [hnil.2 e] at hl; cases hl
+    cases first <;> simp [hs, List.append_assoc]
+
+
 end Tera.Builtins
